@@ -668,6 +668,18 @@ def spawn_layer_in_subprocess(result, script_parts, options, features,
             errors.extend(new_errors)
             skipped.extend([("skipped test in %s" % layer_name, None)] * nskip)
 
+    except Exception as e:
+        # Whatever else goes wrong in this thread (the thread reading the
+        # child's stderr cannot be started, relaying the child's output
+        # fails, ...): without this the exception would only kill the
+        # thread and the layer would silently count as having run no tests.
+        result.num_ran = 0
+        error = ("subprocess for %s" % layer_name, None)
+        if error not in errors:
+            errors.append(error)
+        output.error_with_banner(
+            "Error while running subprocess for %s: %s: %s"
+            % (layer_name, type(e).__name__, e))
     finally:
         result.done = True
         if child is not None:
